@@ -207,6 +207,22 @@ def m_ne(I, st, fr, callee, args, dty, dest, ret_bb):
     a = mat(I, st, args[0]); vec = deref(I, st, a.d['vec'])
     lhs = [st.heap[c].d['id'] for c in vec.d['elems']]
     st.frames.append(ModelFrame(h_collect, {'it': st.alloc(mat(I, st, args[1])), 'acc': [], 'then': 'ne', 'lhs': lhs}, dest, ret_bb)); return PUSHED
+def h_ne2(I, st, fr):
+    """<KeysIter as Iterator>::ne(KeysIter): both sides drained through the repository's KeysIter::next, then compared element-wise (std contract)"""
+    d = fr.data
+    if 'ret' in d:
+        r = d.pop('ret')
+        if r.discr == 0:
+            if d['side'] == 'lhs': d['side'] = 'rhs'
+            else:
+                a, b = d['lhs'], d['rhs']
+                res = z3.BoolVal(True) if len(a) != len(b) else z3.Not(z3.And([x == y for x, y in zip(a, b)] + [z3.BoolVal(True)]))
+                I.do_return(st, res); return [st]
+        else:
+            d[d['side']] = d[d['side']] + [clone(deref(I, st, r.fields[('Some', 0)])).d['id']]
+    I.push_call(st, keysiter_fn(I), [Ref(d['it_' + d['side']])], None, None); return [st]
+def m_ne2(I, st, fr, callee, args, dty, dest, ret_bb):
+    st.frames.append(ModelFrame(h_ne2, {'it_lhs': st.alloc(mat(I, st, args[0])), 'it_rhs': st.alloc(mat(I, st, args[1])), 'lhs': [], 'rhs': [], 'side': 'lhs'}, dest, ret_bb)); return PUSHED
 def m_false(I, st, fr, callee, args, dty, dest, ret_bb): return z3.BoolVal(False)
 def m_fs_remove(I, st, fr, callee, args, dty, dest, ret_bb): return leaf_future('fs_remove', key=path_key(I, st, args[0]))
 def op_fs_remove(I, st, fut):
@@ -248,6 +264,7 @@ def install_world(I):
         (R(r'^<KeysIter<.*> as Iterator>::cloned::<'), m_identity),
         (R(r'as Iterator>::collect::<Vec<key::Key>>$'), m_collect),
         (R(r'^<std::slice::Iter<.*> as Iterator>::ne::<KeysIter'), m_ne),
+        (R(r'^<KeysIter<.*> as Iterator>::ne::<KeysIter'), m_ne2),
         (R(r'^<Vec<.*> as Deref>::deref$'), m_identity),
         (R(r'^<Level as PartialOrd<LevelFilter>>::le$'), m_false),
         (R(r'^tokio::fs::remove_file::<'), m_fs_remove),
